@@ -7145,6 +7145,22 @@ func setProtoTreasureToModel(treasure *hydraidepbgo.Treasure, field reflect.Valu
 				field.Set(reflect.ValueOf(decoded).Elem())
 			}
 
+		case reflect.Struct:
+			if field.Type() == reflect.TypeOf(time.Time{}) || !field.CanAddr() {
+				return nil
+			}
+			data := treasure.GetBytesVal()
+			if isMsgpackEncoded(data) {
+				if err := msgpack.Unmarshal(unwrapMsgpack(data), field.Addr().Interface()); err != nil {
+					return fmt.Errorf("failed to msgpack-decode struct field: %w", err)
+				}
+			} else {
+				decoder := gob.NewDecoder(bytes.NewReader(data))
+				if err := decoder.Decode(field.Addr().Interface()); err != nil {
+					return fmt.Errorf("failed to gob-decode struct field: %w", err)
+				}
+			}
+
 		case reflect.Map, reflect.Ptr:
 			data := treasure.GetBytesVal()
 			decoded := reflect.New(field.Type()).Interface()
@@ -7449,6 +7465,25 @@ func convertFieldToKvPair(value reflect.Value, kvPair *hydraidepbgo.KeyValuePair
 				intVal := timeValue.UTC().Unix()
 				kvPair.Int64Val = &intVal
 			}
+			break
+		}
+		// Any other struct value is encoded exactly like a pointer to it.
+		if encoding == EncodingMsgPack {
+			encoded, encErr := msgpack.Marshal(value.Interface())
+			if encErr != nil {
+				err = fmt.Errorf("could not msgpack-encode struct value: %w", encErr)
+				break
+			}
+			kvPair.BytesVal = wrapMsgpack(encoded)
+		} else {
+			registerGobTypeIfNeeded(value.Interface())
+			var buf bytes.Buffer
+			encoder := gob.NewEncoder(&buf)
+			if encErr := encoder.Encode(value.Interface()); encErr != nil {
+				err = fmt.Errorf("could not GOB-encode struct value: %w", encErr)
+				break
+			}
+			kvPair.BytesVal = buf.Bytes()
 		}
 
 	// ❌ Any other unsupported type is rejected explicitly
